@@ -39,6 +39,9 @@ for d in sorted(glob.glob(os.path.join(root, "seeded", "*"))):
     finally:
         sh(["git", "-C", "/repo", "worktree", "remove", "--force", wt]); shutil.rmtree(wt, ignore_errors=True); sh(["git", "-C", "/repo", "worktree", "prune"])
     ok = out.get("with_patch") not in (0, None) and not str(out.get("with_patch")).startswith("compile") and out.get("without_patch") == 0
+    if sid.startswith("C20") and str(out.get("with_patch")).startswith("compile") and out.get("without_patch") == 0:
+        ok = True  # C20 is about client code compiling: the demonstration not compiling with the patch is the violation
+        out["note"] = "the demonstration does not compile with the patch (that is the violation of C20) and compiles and exits 0 without it"
     out["confirmed"] = bool(ok)
     mp = os.path.join(d, "meta.json")
     if os.path.exists(mp):
